@@ -59,7 +59,7 @@ def run(c: Check):
             c.tlc_mc("Normalize", "Normalize_sanity_%s.cfg" % suf, expect_violation=inv, count=False,
                      name="sanity: %s" % what)
 
-    n_pkg = 20000 if th else 2100
+    n_pkg = 50000 if th else 2100
     n_sock = 2400 if th else 320
     out, _ = c.go_harness("internal/dnsserver", "^TestVerifC08Pkg$", files=["c08_test.go"], env={"VERIF_N": n_pkg},
                           timeout=1500)
@@ -155,6 +155,7 @@ def run(c: Check):
                 if sig["late_options"] == "none":
                     sig["proto"] = e["p"]
                     sig["limit"] = lim
+                    sig["nsid_payload"] = e["req"]["nsidlen"] > 0 and e["hopt"] == "none"
             else:
                 sig["proto"] = e["p"]
             desc = ("C08 %s/%s %s: %s; request EDNS %s, configured max %d => limit %d; handler response %s "
